@@ -11,6 +11,9 @@
  *   poll <none|stop|free|restart|block>       one loop iteration (vloop_run_once /
  *                                             ev_run(EVRUN_NOWAIT)); the word says what the
  *                                             pump's call-back does if it is invoked
+ *   poll2 <stop|block|free>                   one loop iteration in which ANOTHER ready watcher (ev: a raw
+ *                                             libev timer of higher priority) runs first and stops /
+ *                                             blocks (lowest free slot) / frees the pump
  *   free
  *   selftest                                  sanity test of the vloop API that the commands above
  *                                             do not reach (prints "selftest ok" or aborts)
@@ -103,6 +106,42 @@ static void pump_cb(struct upump *upump)
             break;
     }
     cb_act = ACT_NONE;
+}
+
+/* the other ready watcher of "poll2" */
+static ev_timer helper;
+static enum act h_act;
+static void helper_act(void)
+{
+    enum act a = h_act;
+    h_act = ACT_NONE;
+    if (pump == NULL)
+        return;
+    switch (a) {
+        case ACT_STOP:
+            upump_stop(pump);
+            break;
+        case ACT_FREE: {
+            struct upump *p = pump;
+            pump = NULL;
+            upump_free(p);
+            memset(blk, 0, sizeof(blk));
+            break;
+        }
+        case ACT_BLOCK:
+            for (int i = 0; i < NB; i++)
+                if (blk[i] == NULL) {
+                    do_balloc(i);
+                    break;
+                }
+            break;
+        default:
+            break;
+    }
+}
+static void helper_cb(struct ev_loop *l, ev_timer *w, int revents)
+{
+    helper_act();
 }
 
 static void teardown(void)
@@ -337,6 +376,7 @@ int main(void)
         int ret = -1, alive = -1;
         bool legal = true;
         bool is_poll = !strcmp(op, "poll") || !strcmp(op, "dispatch");
+        if (!strcmp(op, "poll2") && pump == NULL) { printf("skip\n"); if (flush) fflush(stdout); continue; }
         if (!is_ev)
             vloop_log_clear(mgr);
 
@@ -378,6 +418,28 @@ int main(void)
             else {
                 legal = pump != NULL && vloop_dispatch(mgr, pump);
                 alive = vloop_busy(mgr) ? 1 : 0;
+            }
+        } else if (!strcmp(op, "poll2")) {
+            /* one loop iteration in which another ready watcher runs first and acts on the pump */
+            h_act = !strcmp(a1, "stop") ? ACT_STOP : !strcmp(a1, "free") ? ACT_FREE : ACT_BLOCK;
+            if (h_act == ACT_BLOCK) {
+                legal = false;
+                for (int i = 0; i < NB; i++) if (blk[i] == NULL) legal = true;
+            }
+            if (legal) {
+                cb_act = ACT_NONE;
+                if (is_ev) {
+                    /* a raw libev timer of higher priority: invoked before the pump's watcher when both
+                     * are pending in the same iteration */
+                    ev_timer_init(&helper, helper_cb, 0., 0.);
+                    ev_set_priority(&helper, 1);
+                    ev_timer_start(loop, &helper);
+                    alive = loop_once();
+                    ev_timer_stop(loop, &helper);
+                } else {
+                    helper_act();
+                    alive = loop_once();
+                }
             }
         } else if (!strcmp(op, "poll")) {
             cb_act = !strcmp(a1, "stop") ? ACT_STOP :
